@@ -358,7 +358,7 @@ func treeMain(args []string) int {
 	return 0
 }
 
-func runTreeScenario(w *ndWriter, seed int64, variant string, nEvents int, idx int) (stuck bool) {
+func runTreeScenario(w *ndWriter, seed int64, variant string, nEvents int, idx int) bool {
 	rng := rand.New(rand.NewSource(seed))
 	tr := theTracer
 	run := fmt.Sprintf("%s-%d", variant, seed)
@@ -373,6 +373,7 @@ func runTreeScenario(w *ndWriter, seed int64, variant string, nEvents int, idx i
 	pert := newPerturber(seed, []int{0, 3, 10}[rng.Intn(3)])
 	s := &treeScn{tr: tr, rng: rng, pert: pert}
 	s.srv = NewFakeServer(tr)
+	s.srv.Converged = true // the watch is healthy: at quiescence the cache must equal the server
 	ctlFilter := "null"
 	if rng.Intn(4) == 0 {
 		ctlFilter = []string{"lx1", "nsa", "nlx1"}[rng.Intn(3)]
@@ -489,6 +490,35 @@ func runTreeScenario(w *ndWriter, seed int64, variant string, nEvents int, idx i
 			break
 		}
 	}
+	stuck, leak := s.finish(root, "close", cancel)
+	tr.LogRaw("drv", "end", fmt.Sprintf(`"run":%q`, run))
+	tr.End()
+	return stuck || leak != 0
+}
+
+// guarded runs a driver API call under a watchdog: a call that does not return is recorded and the
+// scenario goes straight to its shutdown phase.
+func (s *treeScn) guarded(what string, node int, fn func()) bool {
+	if s.wedged {
+		return false
+	}
+	ret := make(chan struct{})
+	go func() { fn(); close(ret) }()
+	select {
+	case <-ret:
+		return true
+	case <-time.After(3 * time.Second):
+		s.tr.LogRaw("drv", "blocked", fmt.Sprintf(`"call":%q,"node":%d`, what, node))
+		s.wedged = true
+		return false
+	}
+}
+
+// finish takes the snapshots at quiescence, shuts the tree down through the root with the given
+// trigger, and records everything the termination properties talk about.
+func (s *treeScn) finish(root *tnode, how string, cancel context.CancelFunc) (stuck bool, leak int) {
+	tr := s.tr
+	ctl := s.ctl
 	ok := s.barrier("final")
 	// snapshots at quiescence
 	s.srv.LogSnapshot()
@@ -503,9 +533,27 @@ func runTreeScenario(w *ndWriter, seed int64, variant string, nEvents int, idx i
 		s.drain(n)
 	}
 	// shut everything down through the root and check termination
-	tr.LogRaw("drv", "call.close", fmt.Sprintf(`"node":0,"stage":%q,"how":"close"`, root.stage))
+	tr.LogRaw("drv", "call.close", fmt.Sprintf(`"node":0,"stage":%q,"how":%q`, root.stage, how))
 	closeRet := make(chan struct{})
-	go func() { ctl.Close(); close(closeRet) }()
+	go func() {
+		switch how {
+		case "cancel":
+			cancel()
+			<-ctl.Done()
+		case "close3":
+			var wg sync.WaitGroup
+			for i := 0; i < 3; i++ {
+				wg.Add(1)
+				go func() { defer wg.Done(); ctl.Close() }()
+			}
+			wg.Wait()
+		case "none": // the controller is expected to have stopped by itself (fatal list error)
+			<-ctl.Done()
+		default:
+			ctl.Close()
+		}
+		close(closeRet)
+	}()
 	select {
 	case <-closeRet:
 		tr.LogRaw("drv", "ret.close", `"node":0,"timeout":false`)
@@ -553,7 +601,7 @@ func runTreeScenario(w *ndWriter, seed int64, variant string, nEvents int, idx i
 		stuck = s.afterDone()
 	}
 	// leak census
-	leak := 0
+	leak = 0
 	var sample string
 	for i := 0; i < 200; i++ {
 		leak, sample = libGoroutineCount()
@@ -571,27 +619,13 @@ func runTreeScenario(w *ndWriter, seed int64, variant string, nEvents int, idx i
 		sample = ""
 	}
 	tr.LogRaw("drv", "leak", fmt.Sprintf(`"n":%d,"sample":%q`, leak, sample))
-	tr.LogRaw("drv", "end", fmt.Sprintf(`"run":%q`, run))
-	tr.End()
-	return stuck || leak != 0
-}
-
-// guarded runs a driver API call under a watchdog: a call that does not return is recorded and the
-// scenario goes straight to its shutdown phase.
-func (s *treeScn) guarded(what string, node int, fn func()) bool {
-	if s.wedged {
-		return false
+	// what the controller reports at the end
+	errs := ""
+	if e := ctl.Error(); e != nil {
+		errs = e.Error()
 	}
-	ret := make(chan struct{})
-	go func() { fn(); close(ret) }()
-	select {
-	case <-ret:
-		return true
-	case <-time.After(3 * time.Second):
-		s.tr.LogRaw("drv", "blocked", fmt.Sprintf(`"call":%q,"node":%d`, what, node))
-		s.wedged = true
-		return false
-	}
+	tr.LogRaw(root.stage, "ctl.final", fmt.Sprintf(`"done":%v,"err":%q,"ready":%v,"how":%q`, isClosed(ctl.Done()), errs, isClosed(ctl.Ready()), how))
+	return stuck, leak
 }
 
 func (s *treeScn) barrier(why string) bool {
